@@ -125,6 +125,29 @@ class Root(object):
         return b'args'
 
     @cherrypy.expose
+    def raw(self, *args, **kw):
+        """A handler that reads the request entity itself, the three ways the API offers."""
+        body = cherrypy.request.body
+        mode = kw.get('mode')
+        if isinstance(mode, list):
+            mode = mode[0]
+        if cherrypy.request.method not in cherrypy.request.methods_with_bodies:
+            return b'raw: no entity'       # (the reader API is for requests whose entity was processed)
+        if mode == 'lines':
+            n = sum(len(x) for x in body.fp.readlines())
+        elif mode == 'hint':
+            n = sum(len(x) for x in body.fp.readlines(10))
+        elif mode == 'line':
+            n = len(body.fp.readline()) + len(body.fp.readline(5)) + len(body.fp.read())
+        elif mode == 'file':
+            f = body.read_into_file()
+            f.seek(0)
+            n = len(f.read())
+        else:
+            n = len(body.fp.read(3) or b'') + len(body.fp.read() or b'')
+        return b'raw %d' % n
+
+    @cherrypy.expose
     def enc(self, *args, **kw):          # tools.encode over a text body every charset of the fallback chain can encode
         return 'h\xe9llo ' * 4
 
